@@ -37,6 +37,20 @@ Definition below_floor (sn : snapshot) (m : pmsg) : bool :=
 
 Definition silent (m : pmsg) (v : val) : bool := negb (existsb (Z.eqb v) (voters m)).
 
+(** How a message's evidence list comes to be: MsgAddEvidence by anybody, any number of times, in any
+    order (a pigeon retrying, a validator changing its mind).  Queue.AddEvidence keeps ONE entry per
+    validator, the latest proof (Cons/Quorum.v [add_evidence]; that the source has this shape is
+    Gen.C13.add_evidence_one_entry_per_validator). *)
+Definition stored_evidence (subs : list evidence) : list evidence := fold_left add_evidence subs [].
+
+Definition msg_of_submissions (public error : bool) (subs : list evidence) : pmsg :=
+  {| pm_public := public; pm_error := error; pm_evs := stored_evidence subs |}.
+
+(** Specification level: the validators that attested (each once, however often they sent), and
+    the snapshot share they stand for. *)
+Definition attesters (subs : list evidence) : list val := nodup Z.eq_dec (map ev_val subs).
+Definition attested_power (sn : snapshot) (subs : list evidence) : Z := power sn (attesters subs).
+
 Section WithKey.
   Context {K : Type} (keqb : K -> K -> bool) (gk : Z -> Z -> K) (ord : list (@group K) -> list (@group K)).
 
